@@ -441,7 +441,7 @@ pub fn run(ctx: &Ctx) -> i32 {
     let acc = par::sweep(
         total,
         4096,
-        |_| Interp::new().expect("interpreter"),
+        |_| Interp::must_new(),
         |it, acc: &mut Acc, i| {
             let (text, space, reader): (String, &str, bool) = if i < n_strings {
                 let l = offs.iter().rposition(|o| *o <= i).unwrap();
